@@ -555,6 +555,34 @@ def part_links(ctx, scratch, quick):
         common.rm_tree(top)
 
 
+def part_times(ctx, scratch, quick):
+    """the `modified` column is the entry's own modification time in local time — under the offset in force at that
+    instant, which in a zone with daylight saving differs between a winter and a summer file"""
+    import oracle
+    for zi, tz in enumerate(list(fstree.DST_ZONES) + ["UTC", "<+03>-3"]):
+        ents = []
+        for k, (mt, nm) in enumerate([(1673784000, "jan"), (1689422400, "jul"), (1698541200, "oct-change-day"), (1711846800, "mar-change-day"),
+                                      (946684799, "y1999"), (1700000000, "nov")]):
+            ents.append({"path": "%s.txt" % nm, "kind": "f", "size": k, "mode": 0o644, "mtime": mt})
+        ents.append({"path": "summer-dir", "kind": "d", "mode": 0o755, "mtime": 1688212800})
+        snap = corr.Snap(scratch, ents, subdir="tm%d" % zi, tz=tz)
+        q = "select name, modified from . into list"
+        ctx.case(("times", tz, q))
+        ctx.distinct.add(("times", tz, "nt"))
+        m, impl = corr.run_case(ctx, snap, [q], fmt="list", ncols=2)
+        vals = impl["out"].split(b"\0")[:-1]
+        for i in range(0, len(vals) - 1, 2):
+            node = next((n for n in snap.nodes if n["name"].encode() == vals[i]), None)
+            if node is None:
+                continue
+            want = oracle.column(node, "modified", tz=tz)
+            if vals[i + 1].decode() != want:
+                ctx.oracle_fail("`modified` is not the entry's modification time in local time (offset of that instant)", {"argv": [q], "tz": tz, "entry": node["name"]},
+                                detail={"got": vals[i + 1].decode(), "want": want})
+                break
+        common.rm_tree(snap.root)
+
+
 def run(ctx):
     quick = ctx.tier == "quick"
     part_h(ctx, quick)
@@ -564,6 +592,7 @@ def run(ctx):
         part_owner_xattr(ctx, scratch, quick)
         part_names(ctx, scratch, quick)
         part_links(ctx, scratch, quick)
+        part_times(ctx, scratch, quick)
         part_modes_disk(ctx, scratch, quick)
         part_zip_modes(ctx, scratch, quick)
     finally:
